@@ -3,6 +3,8 @@ import glob
 import os
 import re
 
+import vlib
+
 FRAME = re.compile(r"^\s+(\S+)\(.*\)$|^\s+(\S+)\(\)$")
 
 
@@ -34,14 +36,14 @@ def parse_reports(paths):
 def classify_access(frames):
     """Return (kind, site): kind in {'snowflake', 'harness', 'other'}; site = file:function of the
     innermost frame that lies in the snowflake module (engine frames are skipped)."""
-    if frames and "/repo/verifvs/" in frames[0][1]:
+    if frames and (vlib.REPO + "/verifvs/") in frames[0][1]:
         # the access itself is made by the scheduler runtime (its own bookkeeping), not by a real
         # operation it executes on behalf of the program
         return "engine", frames[0][0].split("/")[-1]
     for fn, loc in frames:
-        if "/repo/" not in loc:
+        if (vlib.REPO + "/") not in loc:
             continue
-        rel = loc.split("/repo/", 1)[1]
+        rel = loc.split(vlib.REPO + "/", 1)[1]
         if rel.startswith("verifvs/") or rel.startswith("verifenum/"):
             continue
         base = os.path.basename(rel.split(":")[0])
